@@ -42,6 +42,7 @@ NewTask(size, used, off, tr, mem0) ==
    q |-> << >>, peof |-> FALSE, perr |-> FALSE, out |-> << >>,               \* the stream behind the descriptor
    sent |-> << >>, pend |-> << >>, deliv |-> << >>, outw |-> << >>,           \* ghosts: bytes written by the peer / taken but not yet
                                                                             \* reported / reported; bytes emitted from the current window
+   ioEver |-> FALSE, tmrEver |-> FALSE,                                     \* tp_data / tp_timer were handed to tpt_ev_add at least once
    arm |-> 0, reps |-> {},   \* reps: conditions already reported in the current arming
    stopped |-> FALSE, lastret |-> CB_NONE, ncb |-> 0, devs |-> {}, notes |-> {}]
 
@@ -56,7 +57,8 @@ TmrOn(s) == <<P("tmr", ENABLE, TIMER, DISPATCH), St(s.cfg.tmo)>>
 RestartOk(s) == (IF HasT(s) THEN <<P("tmr", ADD, TIMER, DISPATCH), St(s.cfg.tmo)>> ELSE << >>) \o <<P("io", ADD, s.cfg.ev, s.cfg.efl)>>
 RestartFailT(s) == <<P("tmr", ADD, TIMER, DISPATCH), Fail>>
 RestartFailIo(s) == RestartOk(s) \o <<Fail>>
-StopPosts(s) == <<P("io", DEL, s.cfg.ev, 0)>> \o (IF HasT(s) THEN <<P("tmr", DEL, TIMER, 0)>> ELSE << >>)
+\* (a tp_udata_t that was never given to tpt_ev_add has no thread yet: the call is refused before anything is posted)
+StopPosts(s) == (IF s.ioEver THEN <<P("io", DEL, s.cfg.ev, 0)>> ELSE << >>) \o (IF HasT(s) /\ s.tmrEver THEN <<P("tmr", DEL, TIMER, 0)>> ELSE << >>)
 PreIoPosts(s) == IF ~HasT(s) THEN << >>
                  ELSE IF s.cfg.efl = ONESHOT THEN <<P("tmr", DEL, TIMER, 0)>>
                  ELSE IF s.tmr.present THEN <<P("tmr", DISABLE, TIMER, 0), St(0)>> ELSE <<P("tmr", DISABLE, TIMER, 0)>>
@@ -86,8 +88,10 @@ ApiStart(s, direct, typ, every, ev, efl, tmo, foff) ==
 Armed(s) == [s EXCEPT !.io = [present |-> TRUE, fl |-> s.cfg.efl, dis |-> FALSE],
                       !.tmr = IF HasT(s) THEN [NoReg EXCEPT !.present = TRUE] ELSE @,
                       !.arm = 1, !.reps = {}, !.stopped = FALSE, !.pc = "idle"]
-RestartEnd(s, obs, rc) ==
-  LET s0 == [s EXCEPT !.pc = "idle", !.lastret = CB_NONE] IN
+RestartEnd(sx, obs, rc) ==
+  LET s == [sx EXCEPT !.ioEver = @ \/ (\E i \in 1..Len(obs) : obs[i].o = "io" /\ obs[i].op = ADD),
+                      !.tmrEver = @ \/ (\E i \in 1..Len(obs) : obs[i].o = "tmr" /\ obs[i].op = ADD)]
+      s0 == [s EXCEPT !.pc = "idle", !.lastret = CB_NONE] IN
   CASE rc = 0 /\ obs = RestartOk(s) -> Armed(s)
     [] rc # 0 /\ HasT(s) /\ obs = RestartFailT(s) -> [s0 EXCEPT !.tmr = NoReg]
     [] rc # 0 /\ obs = RestartFailIo(s) \o <<P("tmr", DEL, TIMER, 0)>> -> [s0 EXCEPT !.io = NoReg, !.tmr = NoReg]
@@ -206,7 +210,7 @@ CbBegin(s, o) ==
       s2 == IF again = {} THEN s1
             ELSE IF "flags-lost" \in s.devs THEN Note(s1, "DEVIATION:condition-reported-again:registration-became-persistent")
             ELSE Note(s1, "PROPERTY:EachConditionReportedOnce:reported-twice-in-one-arming")
-      s3 == Chk(s2, ~s.stopped, "PROPERTY:NoCallbackAfterStop:callback")
+      s3 == Chk(s2, ~s.stopped \/ "timer-left" \in s.devs, "PROPERTY:NoCallbackAfterStop:callback")
   IN [s3 EXCEPT !.pc = "cb", !.ncb = @ + 1,
                 !.buf = [size |-> o.size, used |-> o.used, off |-> o.off, tr |-> o.tr], !.mem = o.mem, !.foff = o.foff,
                 !.deliv = @ \o s.pend, !.pend = << >>,
